@@ -20,6 +20,16 @@ inductive SfArg where
   | none | dec (value : Rat) (precision : Nat) | invalid
   deriving Repr, Inhabited
 
+/-- last step of `MoneyMeta.new_unit`: `s` is the state before the
+declaration, `r` the outcome of `super().new_unit(symbol, name)` -/
+def finishCurrency (s : RegState) (r : RegState × Except DeclErr Nat) (frac : Rat) :
+    RegState × Except DeclErr Nat :=
+  match r with
+  | (_, .error e) => (s, .error e)
+  | (s', .ok uid) =>
+    ({ s' with units := s'.units.modify uid fun u => { u with smallestFraction := some frac } },
+     .ok uid)
+
 /-- `MoneyMeta.new_unit(symbol, name, minor_unit, smallest_fraction)` on the
 money class `mc` -/
 def RegState.newCurrency (s : RegState) (mc : Nat) (symbol : Option String) (minor : MinorArg)
@@ -46,12 +56,7 @@ def RegState.newCurrency (s : RegState) (mc : Nat) (symbol : Option String) (min
           if m.den == 1 && m.num > 1 then .ok v else .error .valueError
   match fracRes with
   | .error e => (s, .error e)
-  | .ok frac =>
-    match s.newUnit mc symbol .none with
-    | (_, .error e) => (s, .error e)
-    | (s', .ok uid) =>
-      ({ s' with units := s'.units.modify uid fun u => { u with smallestFraction := some frac } },
-       .ok uid)
+  | .ok frac => finishCurrency s (s.newUnit mc symbol .none) frac
 
 /-- `Money.register_currency(iso_code)` against a table (code, name, minor units) -/
 def RegState.registerCurrency (s : RegState) (mc : Nat) (table : List (String × String × Nat))
@@ -76,28 +81,33 @@ def moneyDivRate (s : QState) (dflt : Rounding) (m : Qty) (r : Rate) : Except Er
     s.reg.mkQty dflt (some (s.reg.unitCls m.unit)) (m.amount * r.inverseRate) r.unitCur
   else .error .ValueError
 
+/-- `unit.definition` (a base unit defines itself) -/
+def unitDefn (s : QState) (u : Nat) : Items :=
+  match (s.reg.unit u).defn with
+  | some d => d
+  | none => [(.atom u, 1)]
+
+/-- the unit term the code resolves for `price * rate` / `price / rate`:
+the price unit's definition times term/unit currency (resp. unit/term) -/
+def priceTerm (s : QState) (p : Qty) (r : Rate) (inverse : Bool) : Items :=
+  let env := s.reg.unitEnv
+  let swap : Items := if inverse then [(.atom r.unitCur, 1), (.atom r.termCur, -1)]
+                      else [(.atom r.termCur, 1), (.atom r.unitCur, -1)]
+  mulTerm env (s.unitDefn p.unit) (mkTerm env swap)
+
 /-- `price * rate` (`inverse = false`) and `price / rate` (`inverse = true`)
 for a quantity whose unit's definition contains a currency -/
 def priceTimesRate (s : QState) (dflt : Rounding) (p : Qty) (r : Rate) (inverse : Bool) :
     Except Err Qty :=
-  let env := s.reg.unitEnv
-  let defn : Items := match (s.reg.unit p.unit).defn with
-    | some d => d
-    | none => [(.atom p.unit, 1)]
-  let swap : Items := if inverse then [(.atom r.unitCur, 1), (.atom r.termCur, -1)]
-                      else [(.atom r.termCur, 1), (.atom r.unitCur, -1)]
-  let t := mulTerm env defn (mkTerm env swap)
-  match s.reg.amntAndUnit t with
+  let k := if inverse then r.inverseRate else r.rate
+  match s.reg.amntAndUnit (s.priceTerm p r inverse) with
   | none => .error .QuantityError
   | some (f, none) =>
     -- `cls(amount, None)`: falls back to the reference unit of the class
     (match (s.reg.cls (s.reg.unitCls p.unit)).refUnit with
      | none => .error .QuantityError
-     | some ru => s.reg.mkQty dflt (some (s.reg.unitCls p.unit))
-                    (f * (if inverse then r.inverseRate else r.rate) * p.amount) ru)
-  | some (f, some w) =>
-    s.reg.mkQty dflt (some (s.reg.unitCls p.unit))
-      (f * (if inverse then r.inverseRate else r.rate) * p.amount) w
+     | some ru => s.reg.mkQty dflt (some (s.reg.unitCls p.unit)) (f * k * p.amount) ru)
+  | some (f, some w) => s.reg.mkQty dflt (some (s.reg.unitCls p.unit)) (f * k * p.amount) w
 
 end QState
 
